@@ -50,6 +50,7 @@ func c07Pool(quick bool) []recipe {
 			rs = append(rs, specRecipe(shapes.Spec{Chunks: specs[i], Mode: shapes.Opt, Share: shapes.Plain}))
 		}
 		rs = append(rs, specRecipe(shapes.Spec{Chunks: specs[0], Mode: shapes.Opt, Share: shapes.COW}))
+		rs = append(rs, specRecipe(shapes.Spec{Chunks: specs[10], Mode: shapes.Opt, Share: shapes.COW}))
 		rs = append(rs, specRecipe(shapes.Spec{Chunks: specs[2], Mode: shapes.Opt, Share: shapes.ZeroC}))
 		return rs
 	}
@@ -215,6 +216,12 @@ func creations() []creation {
 		variadic("ParOr(2,a,b,c@1)", par(roaring.ParOr, 2), foldOr, abcAt(1)),
 		variadic("ParOr(1,a,b,c@3)", par(roaring.ParOr, 1), foldOr, abcAt(3)),
 		variadic("FastOr(a,b,c)", roaring.FastOr, foldOr, abc),
+		// third operand on key 0: the lazy in-place union then meets a chunk that only one of the first two operands
+		// holds (possibly a full run chunk, possibly shared with a copy-on-write sibling) and a later operand also has
+		variadic("FastOr(a,b,c@0)", roaring.FastOr, foldOr, abcAt(0)),
+		variadic("HeapOr(a,b,c@0)", roaring.HeapOr, foldOr, abcAt(0)),
+		variadic("ParOr(2,a,b,c@0)", par(roaring.ParOr, 2), foldOr, abcAt(0)),
+		variadic("ParHeapOr(2,a,b,c@0)", par(roaring.ParHeapOr, 2), foldOr, abcAt(0)),
 		variadic("HeapOr(c,a,b)", roaring.HeapOr, foldOr, cab),
 		variadic("HeapXor(a,b,c)", roaring.HeapXor, foldXor, abc),
 		variadic("ParHeapOr(2,a,b,c)", par(roaring.ParHeapOr, 2), foldOr, abc),
